@@ -14,14 +14,14 @@ RULE = ('end-to-end runs (M-serial) with non-default -sp/-dp/-su/-d/-ms/-bs (pai
         'joined, second-pass or reverse; distinct by content hash.')
 ASSUMPTIONS = ['rows whose pairs violate C01 are skipped (counted)', 'confidence tolerance 1e-6 relative, 0.01 on the '
                'two-decimal column']
-MINIMUMS = {'rows-judged': {'quick': 1500, 'thorough': 20000}, 'candidates-judged': {'quick': 3000, 'thorough': 40000},
+MINIMUMS = {'rows-judged': {'quick': 1000, 'thorough': 20000}, 'candidates-judged': {'quick': 2000, 'thorough': 40000},
             'multi-segment-rows': {'quick': 50, 'thorough': 500}, 'joined-rows': {'quick': 20, 'thorough': 200},
-            'non-default-scoring-runs': {'quick': 100, 'thorough': 1000}}
+            'non-default-scoring-runs': {'quick': 60, 'thorough': 1000}}
 CLASSES = ['clean', 'noisy', 'noisy', 'chimeric', 'indel', 'partial']
 
 
 def plan(tier, seed):
-    n, c = (16, 25) if tier == 'quick' else (64, 95)
+    n, c = (16, 18) if tier == 'quick' else (64, 95)
     return [{'name': 'e2e%d' % i, 'kind': 'e2e', 'seed': seed, 'shard': i, 'cases': c} for i in range(n)]
 
 
